@@ -1,6 +1,7 @@
 package vuego
 
 import (
+	"errors"
 	"fmt"
 	"io"
 	"strings"
@@ -87,8 +88,12 @@ func (v *Vue) interpolateToWriter(ctx VueContext, w io.Writer, input string) err
 				// Not a path into the data: it may still be an expression without spaced
 				// operators (a literal, !flag, n>3), as accepted by v-if
 				val = nil
-				if res, evalErr := v.exprEval.Eval(expr, v.exprEnv(ctx, expr)); evalErr == nil {
+				res, evalErr := v.exprEval.Eval(expr, v.exprEnv(ctx, expr))
+				if evalErr == nil {
 					val = res
+				} else if fe := (*funcCallError)(nil); errors.As(evalErr, &fe) {
+					// (a function that fails inside the expression fails the render: !fail(x), fail(x)>1)
+					return fmt.Errorf("in expression '{{ %s }}': %w", expr, evalErr)
 				}
 			}
 		}
